@@ -159,11 +159,12 @@ class Builder:
             return ops.ScalarMul(r["c"], (r["n"], r["n"]), dtype=DT[r.get("dtype", "f8")])
         if k == "tridiag":
             n, dt, s = r["n"], r.get("dtype", "f8"), r.get("seed", 0)
-            a = self.array({"shape": [max(n - 1, 0)], "dtype": dt, "seed": s, **_lay(r)})
+            odt = r.get("offdt", dt)  # mixed precision: the operator's dtype is the main diagonal's
+            a = self.array({"shape": [max(n - 1, 0)], "dtype": odt, "seed": s, **_lay(r)})
             b = self.array({"shape": [n], "dtype": dt, "seed": s + 1, "kind": "pos", **_lay(r)})
             if r.get("symm", True):
                 return ops.Tridiagonal(a, b, a)
-            c = self.array({"shape": [max(n - 1, 0)], "dtype": dt, "seed": s + 2})
+            c = self.array({"shape": [max(n - 1, 0)], "dtype": odt, "seed": s + 2})
             return ops.Tridiagonal(a, b, c)
         if k == "perm":
             p = self.array({"shape": [r["n"]], "seed": r.get("seed", 0), "kind": "perm"})
@@ -176,7 +177,7 @@ class Builder:
         if k == "kernel":
             n, dt, s = r["n"], r.get("dtype", "f8"), r.get("seed", 0)
             x1 = self.array({"shape": [n, 2], "dtype": dt, "seed": s})
-            x2 = x1 if r.get("same", True) else self.array({"shape": [n, 2], "dtype": dt, "seed": s + 1})
+            x2 = x1 if r.get("same", True) else self.array({"shape": [n, 2], "dtype": r.get("x2dt", dt), "seed": s + 1})
             return ops.Kernel(x1, x2, _rbf, r.get("bs1", max(1, n // 2)), r.get("bs2", max(1, n // 2)))
         if k == "sparse":
             n, dt, s = r["n"], r.get("dtype", "f8"), r.get("seed", 0)
